@@ -1,5 +1,7 @@
+pub mod c08;
 pub mod c11;
 pub mod c12;
+pub mod c20;
 pub mod forest_props;
 
 use crate::driver::PropEngine;
@@ -9,10 +11,12 @@ pub fn engine_for(id: &str) -> Option<Box<dyn PropEngine>> {
         "C04" => Some(Box::new(forest_props::ForestEngine::c04())),
         "C05" => Some(Box::new(forest_props::ForestEngine::c05())),
         "C06" => Some(Box::new(forest_props::ForestEngine::c06())),
+        "C08" => Some(Box::new(c08::C08Engine)),
         "C11" => Some(Box::new(c11::engine())),
         "C12" => Some(Box::new(c12::engine())),
+        "C20" => Some(Box::new(c20::C20Engine)),
         _ => None,
     }
 }
 
-pub const CLAIMED: [&str; 5] = ["C04", "C05", "C06", "C11", "C12"];
+pub const CLAIMED: [&str; 7] = ["C04", "C05", "C06", "C08", "C11", "C12", "C20"];
